@@ -338,13 +338,15 @@ func (e *engine) Info() core.Info {
 }
 
 type xform struct {
-	a, b    int // indices into pool
-	t       proj.Transformer
-	built   bool
-	err     bool
-	calls   int
-	client  int
-	touched bool // another transformer sharing an SR was called since the last call
+	lastX, lastY float64
+	hasLast      bool
+	a, b         int // indices into pool
+	t            proj.Transformer
+	built        bool
+	err          bool
+	calls        int
+	client       int
+	touched      bool // another transformer sharing an SR was called since the last call
 }
 
 type run struct {
@@ -548,6 +550,19 @@ func (r *run) call(client int) {
 		return
 	}
 	px, py := r.point(r.pdef[x.a])
+	if x.hasLast && r.t.OneIn(6, "near-repeat") {
+		// almost the previous input of this transformer: a few ulps away in
+		// one or both coordinates (or exactly the same)
+		px, py = x.lastX, x.lastY
+		for i, n := 0, r.t.Choose(4, "near-ulps-x"); i < n; i++ {
+			px = math.Nextafter(px, math.Inf(1))
+		}
+		for i, n := 0, r.t.Choose(4, "near-ulps-y"); i < n; i++ {
+			py = math.Nextafter(py, math.Inf(-1))
+		}
+		r.res.Probe("near-repeat-input(0-3 ulps)")
+	}
+	x.lastX, x.lastY, x.hasLast = px, py, true
 	var got callResult
 	if x.t == nil {
 		got = callResult{x: px, y: py, ok: true, nilT: true}
